@@ -1,13 +1,13 @@
 package main
 
 import (
-	"sync"
 	"fmt"
 	"go/token"
 	"go/types"
 	"math/big"
 	"strconv"
 	"strings"
+	"sync"
 
 	"golang.org/x/tools/go/ssa"
 )
@@ -1037,6 +1037,13 @@ func (r *FnRun) assertAtName(st *State, site ssa.Instruction, name string, args 
 		lbl := aa.Clause.Name
 		if lbl == "" {
 			lbl = sanitize(aa.Callee)
+		}
+		if g.S != "false" {
+			// vacuity guard: the asserted call site must be reached by some path that is not refutable
+			// (an assertion of `false` claims the opposite and is exempt)
+			cv := r.oblig(st, "cover", "assert_site."+lbl, site, "false", "some path reaches the call site of this assertion under the accumulated hypotheses", props)
+			cv.Cover = true
+			cv.AnyPath = true
 		}
 		o := r.oblig(st, "assert", lbl, site, g.S, "assertion at "+aa.Callee+": "+aa.Clause.Src, props)
 		o.Clause = aa.Clause.Src
